@@ -8,6 +8,10 @@ use serde_json::{json, Value};
 fn tol(x: f32) -> f32 {
     2e-4 * x.abs().max(1.0) + leaf::noise() as f32
 }
+/// two evaluations of a share / fraction that the property says are the same number (no energy-sized allowance)
+fn same_ratio(a: f32, b: f32) -> bool {
+    (a - b).abs() <= 2e-4 * a.abs().max(b.abs()).max(1.0) && a.is_finite() && b.is_finite()
+}
 /// a <= b for ratios (renewable shares) whose denominator is `den` kWh
 fn ratio_le(a: f32, b: f32, den: f32) -> bool {
     a <= b + 2e-4 + (leaf::noise() as f32) / den.max(1e-6) && a.is_finite() && b.is_finite()
@@ -308,6 +312,21 @@ pub fn check(pid: &str, seed: u64) -> Value {
             leaf::reset_noise();
             match pid {
                 "C01" | "C04" | "C13" => {
+                  if pid == "C04" {
+                      // the three renewable shares do not depend on the reference area
+                      if let Ok(e1) = run(&tcase(t, 0.5, 1.0, lm)) {
+                          for area in [0.5f32, 100.0, 217.4] {
+                              evals += 1;
+                              if let Ok(e) = run(&tcase(t, 0.5, area, lm)) {
+                                  let den = (e1.balance.we.b.ren + e1.balance.we.b.nren).abs();
+                                  let tol = |x: f32| 2e-4 * x.abs().max(1.0) + leaf::noise() as f32 / den.max(1e-6);
+                                  for (name, x, y) in [("RER", e1.rer, e.rer), ("RER_nrb", e1.rer_nrb, e.rer_nrb), ("RER_onst", e1.rer_onst, e.rer_onst)] {
+                                      if leaf::ratio_ok(den as f64) && !((x - y).abs() <= tol(x)) { failures.push(json!({"clause": "C04", "components": t, "k_exp": 0.5, "area": area, "load_matching": lm, "what": format!("{} is {} with area 1 and {} with area {}", name, x, y, area)})); }
+                                  }
+                              }
+                          }
+                      }
+                  }
                   for (k, area) in (if pid == "C04" { vec![(0.5f32, 2.5f32), (1.0, 12.345), (0.25, 0.004), (0.0, 0.015)] } else { vec![(0.0, 1.0)] }) {
                     evals += 1;
                     if let Ok(ep) = run(&tcase(t, k, area, lm)) {
@@ -385,7 +404,7 @@ pub fn check(pid: &str, seed: u64) -> Value {
                         for c in [0.5f32, 8.0, 100.0] {
                             evals += 1;
                             if let Ok(e) = run(&tcase(t, 0.5, 2.0 * c, lm)) {
-                                if !eq(e.balance_m2.we.b.nren * c, e0.balance_m2.we.b.nren) || !eq(e.balance.we.b.nren, e0.balance.we.b.nren) || !eq(e.rer, e0.rer) || !eq(e.rer_nrb, e0.rer_nrb) || !eq(e.rer_onst, e0.rer_onst) {
+                                if !eq(e.balance_m2.we.b.nren * c, e0.balance_m2.we.b.nren) || !eq(e.balance.we.b.nren, e0.balance.we.b.nren) || !same_ratio(e.rer, e0.rer) || !same_ratio(e.rer_nrb, e0.rer_nrb) || !same_ratio(e.rer_onst, e0.rer_onst) {
                                     failures.push(json!({"clause": "C11", "components": t, "load_matching": lm, "what": format!("multiplying the area by {} does not divide the per-m2 result by it (or changes something else)", c)}));
                                 }
                             }
@@ -427,9 +446,20 @@ pub fn check(pid: &str, seed: u64) -> Value {
             format!("1,CONSUMO,CAL,GASNATURAL,{}\n2,CONSUMO,ACS,ELECTRICIDAD,{}\n2,CONSUMO,ACS,EAMBIENTE,{}\n3,PRODUCCION,EL_INSITU,{}\n4,CONSUMO,NEPB,ELECTRICIDAD,{}",
                 col(n, &|i| scale * (36.0 + (idx(i) % 5) as f32)), col(n, &|i| scale * (8.0 + (idx(i) % 3) as f32)), col(n, &|i| scale * (20.0 + (idx(i) % 4) as f32)), col(n, &|i| scale * ((idx(i) % 7) as f32 * 3.0)), col(n, &|i| scale * 1.5))
         };
+        // twelve months against the same building in 8760 hourly steps: a small solar thermal use without declared production (1.1-3.6 kWh a month,
+        // 1.5-5 Wh an hour) and a heat pump whose declared ambient production covers 97 % of its use
+        let months = |vals: &[f32], m: usize| -> String { vals.iter().flat_map(|v| std::iter::repeat(format!("{}", v / m as f32)).take(m)).collect::<Vec<_>>().join(",") };
+        let sol = [1.1f32, 1.5, 2.2, 2.9, 3.3, 3.6, 3.6, 3.4, 2.8, 2.0, 1.3, 1.1];
+        let hp_el = [100.0f32, 90.0, 70.0, 50.0, 20.0, 0.0, 0.0, 0.0, 20.0, 50.0, 80.0, 100.0];
+        let monthly = |m: usize| -> String {
+            format!("1,CONSUMO,ACS,TERMOSOLAR,{}\n2,CONSUMO,CAL,ELECTRICIDAD,{}\n2,CONSUMO,CAL,EAMBIENTE,{}\n2,PRODUCCION,EAMBIENTE,{}\n3,CONSUMO,ILU,ELECTRICIDAD,{}",
+                months(&sol, m), months(&hp_el, m), months(&hp_el.map(|v| v * 2.0), m), months(&hp_el.map(|v| v * 1.94), m), months(&[30.0; 12], m))
+        };
         for lm in [false, true] {
-            for (name, base, var) in [("365 daily steps, each split in 24 (8760 hourly steps)", build(365, 1.0, 0, 1), build(8760, 1.0 / 24.0, 0, 24)), ("30 steps rotated by 7", build(30, 1.0, 0, 1), build(30, 1.0, 7, 1)), ("13 steps, each split in 4", build(13, 1.0, 0, 1), build(52, 0.25, 0, 4)), ("13 steps, each split in 3", build(13, 1.0, 0, 1), build(39, 1.0 / 3.0, 0, 3))] {
+            leaf::reset_noise();
+            for (name, base, var) in [("12 months, each split in 730 (8760 hourly steps), small solar thermal use", monthly(1), monthly(730)), ("365 daily steps, each split in 24 (8760 hourly steps)", build(365, 1.0, 0, 1), build(8760, 1.0 / 24.0, 0, 24)), ("30 steps rotated by 7", build(30, 1.0, 0, 1), build(30, 1.0, 7, 1)), ("13 steps, each split in 4", build(13, 1.0, 0, 1), build(52, 0.25, 0, 4)), ("13 steps, each split in 3", build(13, 1.0, 0, 1), build(39, 1.0 / 3.0, 0, 3))] {
                 evals += 2;
+                leaf::reset_noise();
                 if let (Ok(a), Ok(b)) = (run(&tcase(&base, 0.5, 1.0, lm)), run(&tcase(&var, 0.5, 1.0, lm))) {
                     nontrivial += 1;
                     let (sa, sb) = (annual_sig2(&a), annual_sig2(&b));
@@ -440,6 +470,7 @@ pub fn check(pid: &str, seed: u64) -> Value {
         }
     }
     if pid == "C01" {
+        leaf::reset_noise();
         // components built in code with series of different lengths (the text parser refuses them): either no result or a result that still balances
         
         let mk = |u: Vec<f32>, p: Vec<f32>, n: Vec<f32>| cteepbd::Components { meta: vec![], needs: Default::default(), data: vec![
@@ -466,6 +497,7 @@ pub fn check(pid: &str, seed: u64) -> Value {
         std::panic::set_hook(prev);
     }
     if pid == "C12" {
+        leaf::reset_noise();
         // an hourly series (8760 steps) with on-site and cogenerated electricity
         let n = 8760usize;
         let col = |f: &dyn Fn(usize) -> f32| (0..n).map(|i| format!("{}", f(i))).collect::<Vec<_>>().join(",");
@@ -480,6 +512,7 @@ pub fn check(pid: &str, seed: u64) -> Value {
         }
     }
     if pid == "C11" {
+        leaf::reset_noise();
         // the DHW renewable fraction does not depend on the reference area nor (for values well above the 0.01 kWh cut-offs) on a common scale of the energies
         let dhw: Vec<Box<dyn Fn(f32) -> String>> = vec![
             Box::new(|c| format!("DEMANDA,ACS,{}\n1,CONSUMO,ACS,BIOMASA,{}\n1,SALIDA,ACS,{}\n2,CONSUMO,ACS,ELECTRICIDAD,{}", 100.0 * c, 120.0 * c, 90.0 * c, 0.5 * c)),
@@ -491,6 +524,21 @@ pub fn check(pid: &str, seed: u64) -> Value {
             Box::new(|c| format!("DEMANDA,ACS,{}\n1,CONSUMO,ACS,ELECTRICIDAD,{}\n1,CONSUMO,ACS,EAMBIENTE,{}\n1,AUX,{}\n2,PRODUCCION,EL_INSITU,{}", 2.0 * c, 0.555 * c, 1.445 * c, 0.1234 * c, 0.3 * c)),
             Box::new(|c| format!("DEMANDA,ACS,{},{}\n1,CONSUMO,ACS,GASNATURAL,{},{}\n2,CONSUMO,ACS,BIOMASA,{},{}\n2,SALIDA,ACS,{},{}\n2,AUX,{},{}", 0.5 * c, 0.5 * c, 0.3 * c, 0.3 * c, 0.15 * c, 0.15 * c, 0.0625 * c, 0.0645 * c, 0.0125 * c, 0.0135 * c)),
         ];
+        // heat pumps for DHW and heating, PV and a small biomass cogenerator: also scaled DOWN (every scaled value stays >= 0.01 kWh)
+        let dhw_down: Box<dyn Fn(f32) -> String> = Box::new(|c| format!("DEMANDA,ACS,{}\n1,CONSUMO,ACS,ELECTRICIDAD,{}\n1,CONSUMO,ACS,EAMBIENTE,{}\n2,CONSUMO,CAL,ELECTRICIDAD,{}\n2,CONSUMO,CAL,EAMBIENTE,{}\n3,PRODUCCION,EL_INSITU,{}\n4,PRODUCCION,EL_COGEN,{}\n4,CONSUMO,COGEN,BIOMASA,{}", 100.0 * c, 40.0 * c, 60.0 * c, 120.0 * c, 240.0 * c, 16.0 * c, 16.0 * c, 40.0 * c));
+        {
+            let frac = |t: &str| -> Option<f32> { run(&Case { text: t.to_string(), loc: "PENINSULA", k_exp: 0.0, area: 100.0, lm: false }).ok().and_then(|ep| cteepbd::cte::fraccion_renovable_acs_nrb(&ep).ok()) };
+            let t1 = dhw_down(1.0);
+            let f0 = frac(&t1);
+            evals += 1;
+            if f0.is_some() { nontrivial += 1; }
+            for c in [1.0f32 / 1024.0, 1.0 / 64.0, 0.25, 1024.0] {
+                evals += 1;
+                let f = frac(&dhw_down(c));
+                let same = match (f0, f) { (Some(a), Some(b)) => same_ratio(a, b), (None, None) => true, _ => false };
+                if !same { failures.push(json!({"clause": "C11.dhw_fraction_scale", "components": t1, "what": format!("DHW renewable fraction {:?}, but {:?} when every energy is multiplied by {} (every scaled value is still >= 0.01 kWh)", f0, f, c)})); }
+            }
+        }
         for mk in &dhw {
             let t1 = mk(1.0);
             let frac = |t: &str, area: f32| -> Option<f32> { run(&Case { text: t.to_string(), loc: "PENINSULA", k_exp: 0.0, area, lm: false }).ok().and_then(|ep| cteepbd::cte::fraccion_renovable_acs_nrb(&ep).ok()) };
@@ -500,13 +548,13 @@ pub fn check(pid: &str, seed: u64) -> Value {
             for area in [0.5f32, 20.0, 50.0, 100.0, 1024.0, 5000.0] {
                 evals += 1;
                 let f = frac(&t1, area);
-                let same = match (f0, f) { (Some(a), Some(b)) => eq(a, b), (None, None) => true, _ => false };
+                let same = match (f0, f) { (Some(a), Some(b)) => same_ratio(a, b), (None, None) => true, _ => false };
                 if !same { failures.push(json!({"clause": "C11.dhw_fraction_area", "components": t1, "what": format!("DHW renewable fraction {:?} with area 1, {:?} with area {}", f0, f, area)})); }
             }
             for c in [2.0f32, 8.0, 128.0, 1024.0] {
                 evals += 1;
                 let f = frac(&mk(c), 1.0);
-                let same = match (f0, f) { (Some(a), Some(b)) => eq(a, b), (None, None) => true, _ => false };
+                let same = match (f0, f) { (Some(a), Some(b)) => same_ratio(a, b), (None, None) => true, _ => false };
                 if !same { failures.push(json!({"clause": "C11.dhw_fraction_scale", "components": t1, "what": format!("DHW renewable fraction {:?}, but {:?} when every energy is multiplied by {}", f0, f, c)})); }
             }
         }
@@ -612,7 +660,7 @@ pub fn check(pid: &str, seed: u64) -> Value {
                         }
                         evals += 1;
                         if let Ok(e) = run(&case(steps, "PENINSULA", 0.5, 2.0 * c, lm)) {
-                            if !eq(e.balance_m2.we.b.nren * c, e0.balance_m2.we.b.nren) || !eq(e.balance.we.b.nren, e0.balance.we.b.nren) || !eq(e.rer, e0.rer) || !eq(e.rer_nrb, e0.rer_nrb) || !eq(e.rer_onst, e0.rer_onst) {
+                            if !eq(e.balance_m2.we.b.nren * c, e0.balance_m2.we.b.nren) || !eq(e.balance.we.b.nren, e0.balance.we.b.nren) || !same_ratio(e.rer, e0.rer) || !same_ratio(e.rer_nrb, e0.rer_nrb) || !same_ratio(e.rer_onst, e0.rer_onst) {
                                 fail(&mut failures, steps, 0.5, 2.0 * c, lm, format!("multiplying the area by {} does not divide the per-m2 result by it (or changes something else)", c));
                             }
                         }
